@@ -1,12 +1,14 @@
 CHECK = {'rule': 'rapid-generated definition programs (Set/SetDefault/AddFactory/AddDefaultFactory over N0..N5 in a uniformly drawn order, same-kind '
          "duplicates, generated factories = step lists of Get / InjectTo(reflect-built tagged struct, '?' fields, extra-injector fields) / late "
-         'definition, result ok|error|nil; planted rings of length 1..5) followed by request programs (Get, InjectTo, Keys, late definitions), run '
-         'on the plain provider, the static provider and the provider wired by goatapp; every request, top level and nested inside factories, is '
-         'compared with a reference container (error presence, instance identity), every factory entry is checked for laziness, once-only, '
-         'precedence and non-recursion. Plus an exhaustive precedence table and all rings up to length 5. Non-trivial: >=2 top-level Get/InjectTo '
-         'requests, >=1 request issued from inside a factory, and at least one of: a failing or nil factory reached, an optional edge that failed, '
-         'an undefined name requested, a request that hit the construction stack (cycle), a requested name with both an explicit and a default '
-         'definition. Distinct = distinct case JSON (FNV-64).',
+         'definition, result ok|error|nil; planted rings of length 1..5) followed by request programs (Get, InjectTo, Keys, late definitions; '
+         "InjectTo targets are fresh structs whose tagged fields are zero or PRE-POPULATED with a foreign instance, a second provider's instance of "
+         "the same name or the container's own instance, and 14% of the InjectTo calls hand one struct value to two providers in turn), run on the "
+         'plain provider, the static provider and the provider wired by goatapp; every request, top level and nested inside factories, is compared '
+         'with a reference container (error presence, instance identity), every factory entry is checked for laziness, once-only, precedence and '
+         'non-recursion. Plus an exhaustive precedence table, an exhaustive table of pre-populated injection targets (1 name) and all rings up to '
+         'length 5. Non-trivial: >=2 top-level Get/InjectTo requests, >=1 request issued from inside a factory, and at least one of: a failing or '
+         'nil factory reached, an optional edge that failed, an undefined name requested, a request that hit the construction stack (cycle), a '
+         'requested name with both an explicit and a default definition. Distinct = distinct case JSON (FNV-64).',
  'assumptions': ['per name at most one explicit kind and one default kind (Set+AddFactory or SetDefault+AddDefaultFactory for one name are outside '
                  'the quantifier and skipped)',
                  'same-kind duplicate definitions before the first resolution may be refused or accepted (statement silent); if accepted the case is '
@@ -15,7 +17,10 @@ CHECK = {'rule': 'rapid-generated definition programs (Set/SetDefault/AddFactory
                  'counts after failures are not compared)',
                  "any Get (also of an undefined name, also from InjectTo) is the 'first resolution'; Keys and InjectTo without dependency fields are "
                  'not',
-                 'error presence and instance identity compared, never error texts; Keys() results not judged'],
+                 'error presence and instance identity compared, never error texts; Keys() results not judged',
+                 "after a successful InjectTo every resolvable dependency-tagged field holds this container's instance whatever it held before; the "
+                 "final content of a pre-populated OPTIONAL field whose resolution fails is left open ('stays nil' is only asserted for a field that "
+                 'was nil)'],
  'essential_labels': {'all': ['cycle-hit',
                               'self-loop',
                               'cycle-len>=3',
@@ -33,15 +38,25 @@ CHECK = {'rule': 'rapid-generated definition programs (Set/SetDefault/AddFactory
                               'repeat-request',
                               'request-after-failure',
                               'static-provider',
-                              'goatapp-provider']},
+                              'goatapp-provider',
+                              'prepopulated-field',
+                              'prepopulated-foreign',
+                              'prepopulated-other',
+                              'prepopulated-own',
+                              'prepopulated-optional-field',
+                              'prepopulated-optional-unresolved',
+                              'prepopulated-in-factory',
+                              'two-providers-second-first',
+                              'two-providers-second-last',
+                              'two-providers-in-factory']},
  'tiers': {'quick': [{'test': '^TestProp$', 'checks': 5000, 'shards': 6, 'timeout': 240}, {'test': '^TestEnum$', 'shards': 2, 'timeout': 240}],
            'thorough': [{'test': '^TestProp$', 'checks': 50000, 'shards': 14, 'timeout': 3000},
                         {'test': '^TestEnum$', 'shards': 2, 'timeout': 3000}]}}
 
 TEXT = {'technique': 'model-based property testing (rapid): generated definition/request programs with generated factories co-simulated against a ~90-line '
-              'reference container on three container flavours; exhaustive enumeration of the precedence table and of all dependency rings up to '
-              'length 5 (6 thorough)',
- 'level_text': 'Exploration with exhaustive sub-families: ~30 000 random programs + 1 589 enumerated cases per quick run, ~700 000 + 5 685 in '
+              'reference container on three container flavours; exhaustive enumeration of the precedence table, of pre-populated injection targets '
+              'and of all dependency rings up to length 5 (6 thorough)',
+ 'level_text': 'Exploration with exhaustive sub-families: ~30 000 random programs + 2 741 enumerated cases per quick run, ~700 000 + 6 837 in '
                'thorough; every factory entry and every nested request is judged (lazy, once, same-instance, precedence, late-definition, cycle, '
                'outcome).',
  'level_note': 'Trusts the reference container in props/c10. Names N0..N5 plus one undefined name; deterministic factories; concurrency out of scope '
